@@ -196,7 +196,7 @@ fn real_server_outputs(ctx: &Ctx, out: &mut Out, rng: &mut Rng) {
     use crate::procs::*;
     use crate::refimpl::crypto::{Proto, RefKey};
     use std::time::Duration;
-    let n = ctx.share(24, 400);
+    let n = ctx.share(96, 800);
     for i in 0..n {
         let k = i * ctx.nshards + ctx.shard;
         let seed = rng.bytes(32);
@@ -211,16 +211,28 @@ fn real_server_outputs(ctx: &Ctx, out: &mut Out, rng: &mut Rng) {
         let mut pairs: Vec<(String, String)> = cfg.pairs().into_iter().map(|(a, b)| (a.to_string(), b)).collect();
         let mut what = "serving".to_string();
         if failing {
-            let (kk, vv, w) = match (k / 3) % 6 {
-                0 => ("batch_size", "200", "batch_size out of range"),
-                1 => ("fault_percentage", "77", "fault_percentage out of range"),
-                2 => ("port", "0", "port 0"),
-                3 => ("interface", "not-an-address", "bad interface"),
-                4 => ("kms_protection", "arn:aws:kms:x:1:key/abc", "kms without support"),
-                _ => ("no_such_key", "1", "unknown key"),
+            let hx = hex(&seed);
+            let (kk, vv, w): (&str, String, &str) = match (k / 3) % 14 {
+                0 => ("batch_size", "200".into(), "batch_size out of range"),
+                1 => ("fault_percentage", "77".into(), "fault_percentage out of range"),
+                2 => ("port", "0".into(), "port 0"),
+                3 => ("interface", "not-an-address".into(), "bad interface"),
+                4 => ("kms_protection", "arn:aws:kms:x:1:key/abc".into(), "kms id with a plaintext seed"),
+                5 => ("no_such_key", "1".into(), "unknown key"),
+                6 => ("__raw__trailer", "---".into(), "file with a second (empty) YAML document"),
+                7 => ("seed", format!("{}zz", hx), "seed followed by non-hex characters"),
+                8 => ("seed", if via_env { format!("\"{}\"", hx) } else { format!("'{} '", hx) }, "seed with literal quotes / trailing blank"),
+                9 => ("seed", format!("{}a", hx), "seed with an odd number of digits"),
+                10 => ("kms_protection", "projects/p/locations/global/keyRings/r/cryptoKeys/k".into(), "gcp kms id with a plaintext seed"),
+                11 => ("port", "notaport".into(), "non-numeric port"),
+                12 => ("num_workers", "0".into(), "zero workers"),
+                _ => ("__raw__trailer", "seed: [1, 2".into(), "file that is not valid YAML"),
             };
+            if kk.starts_with("__raw__") {
+                cfg.via_env = false;
+            }
             pairs.retain(|(a, _)| a != kk);
-            pairs.push((kk.to_string(), vv.to_string()));
+            pairs.push((kk.to_string(), vv));
             what = format!("failing start-up: {}", w);
         }
         let Ok(mut sp) = spawn_server(&ctx.bins, &cfg, &ctx.scratch, &format!("c20-{}", k), Some(pairs)) else {
@@ -258,7 +270,7 @@ fn real_server_outputs(ctx: &Ctx, out: &mut Out, rng: &mut Rng) {
         let o = sp.output();
         out.obs("real_server_outputs_scanned", 1);
         out.obs("real_server_output_bytes", o.len() as i64);
-        let rp = || json!({"kind":"real-server-output","what":what,"source": if via_env {"ENV"} else {"file"},"output": o.chars().take(1500).collect::<String>()});
+        let rp = || json!({"kind":"real-server-output","what":what,"source": if cfg.via_env {"ENV"} else {"file"},"output": o.chars().take(1500).collect::<String>()});
         scan(out, o.as_bytes(), &nd, &format!("real-server-output({})", if failing { "failing-start" } else { "serving" }), &rp);
         out.case(fnv64(&seed) ^ 0x20, true);
         if !ctx.time_left() {
